@@ -1,4 +1,5 @@
 import Poly.Proofs.EthDeposit
+import Poly.Generated.EvmClones
 /-!
 # C23 — EVM-family deposit proofs are sound and complete
 
@@ -8,7 +9,7 @@ Model: `Poly.Model.EthDeposit.verifyFromEthTx` (the decision logic of `cross_cha
 which block, which root, which key, which comparison — not the trie or the hash.
 -/
 namespace Poly.Props.C23
-open Poly.Model.PoW Poly.Model.EthDeposit Poly.Model.EthHeaderRlp Poly.Proofs.EthDeposit
+open Poly.Model.PoW Poly.Model.EthDeposit Poly.Model.EthHeaderRlp Poly.Proofs.EthDeposit Poly.Generated
 
 variable {H R : Type} [DecidableEq H]
 
@@ -101,6 +102,41 @@ theorem check_proof_result_spec (v k b : Bytes) (hb : b.length < 56) :
       ∃ w, rlpDecodeString v = some w ∧ List.replicate (32 - w.length) (0 : UInt8) ++ w = k) ∧
     rlpDecodeString (rlpBytes b) = some b :=
   ⟨checkProofResult_iff v k, rlpDecode_encode_short b hb⟩
+
+/-! ## Every go-ethereum-trie router -/
+
+/-- The router-independent core: over the head number and the state root a router reads from its header store, the
+deposit check accepts exactly when the facts of the property statement hold (for all inputs, every Keccak and every
+`VerifyProof`). The eth router is this core over `GetCurrentHeader` / `GetHeaderByHeight`. -/
+theorem deposit_core_iff (K : Bytes → Bytes) (vp : Bytes → Bytes → List Bytes → VpRes)
+    (bestNumber : Option Nat) (blockRoot : Option Bytes) (blocksToWait height : Nat) (ccmc : Bytes)
+    (proof : Option EthProof) (extra : Bytes) (param : TxParam) :
+    (verifyDeposit K vp bestNumber blockRoot blocksToWait height ccmc proof extra = .ok param ↔
+      CoreFacts K vp bestNumber blockRoot blocksToWait height ccmc proof extra param) ∧
+    ∀ (root : Hdr H R → Bytes) (s : Store H R),
+      verifyFromEthTx K vp root s blocksToWait height ccmc proof extra =
+        verifyDeposit K vp ((currentHeader s).map fun e => e.hdr.number)
+          ((headerByHeight s height).map fun e => root e.hdr) blocksToWait height ccmc proof extra :=
+  ⟨verifyDeposit_ok_iff K vp bestNumber blockRoot blocksToWait height ccmc proof extra param,
+   fun root s => verifyFromEthTx_eq_core K vp root s blocksToWait height ccmc proof extra⟩
+
+/-- The source of the seven sibling routers (bsc, heco, hsc, msc, pixiechain, polygon/bor, bytom) carries the same
+three functions as the reference router — `verifyFrom…Tx`, `verifyMerkleProof`, `checkProofResult` are equal after
+normalisation (local names, error texts, import aliases, header type) — and eth's exported `VerifyMerkleProof` /
+`CheckProofResult` equal the reference's. The table is regenerated from the Go source on every run
+(extract/evmclones); this theorem is re-checked against it. -/
+theorem routers_share_the_logic :
+    EvmClones.shapes.all (·.sameAsReference) = true ∧
+    EvmClones.shapes.map (fun s => (s.router, s.role)) =
+      [("bsc", "verifyFromTx"), ("bsc", "verifyMerkleProof"), ("bsc", "checkProofResult"),
+       ("heco", "verifyFromTx"), ("heco", "verifyMerkleProof"), ("heco", "checkProofResult"),
+       ("hsc", "verifyFromTx"), ("hsc", "verifyMerkleProof"), ("hsc", "checkProofResult"),
+       ("msc", "verifyFromTx"), ("msc", "verifyMerkleProof"), ("msc", "checkProofResult"),
+       ("pixiechain", "verifyFromTx"), ("pixiechain", "verifyMerkleProof"), ("pixiechain", "checkProofResult"),
+       ("polygon", "verifyFromTx"), ("polygon", "verifyMerkleProof"), ("polygon", "checkProofResult"),
+       ("bytom", "verifyFromTx"), ("bytom", "verifyMerkleProof"), ("bytom", "checkProofResult"),
+       ("eth", "verifyMerkleProof"), ("eth", "checkProofResult")] := by
+  constructor <;> decide
 
 /-! ## Non-vacuity -/
 
